@@ -284,11 +284,12 @@ def c01_v(ctx):
 
     def track(key):
         if key[0] == "expr":
-            return "verify_checksum" in key[1] or "handle_fault" in key[1]
+            return "verify_checksum" in key[1] or "handle_fault" in key[1] or "FileChecksum>::checksum(" in key[1]
         return False
 
     fl = Flow(ctx.prog, ctx.mods, f, track)
     n = 0
+    inlined_compare = []
     for f2, b, t, d, r in call_sites([f], ends("RecvTransaction::finalize_file"), ctx.prog):
         n += 1
         worlds = fl.at_term(b)
@@ -299,6 +300,11 @@ def c01_v(ctx):
                     if "RecvTransaction::verify_checksum(" in k[1] and "handle_fault" not in k[1]:
                         return True
                     if "RecvTransaction::handle_fault(&mut self, pdu::Condition::FileChecksumFailure" in k[1]:
+                        return True
+                    # the comparison itself (verify_checksum written out in place): checksum(staged file) == self.checksum
+                    m = re.match(r"^Eq\((.*)\)$", k[1])
+                    if m and "FileChecksum>::checksum(" in k[1] and "RecvTransaction::get_handle(" in k[1] and "self.checksum" in k[1] and "handle_fault" not in k[1]:
+                        inlined_compare.append(k[1])
                         return True
             return False
 
